@@ -95,6 +95,12 @@ def skeleton(eng, name, P):
         o['write_first'] = bool(eng.choose('wf', 2))
         return [[('BF', T2, o, [('BF', TS, bf_opts(eng, '1', ['ok', 'raise_after'], catch=True), [])]),
                  q_hole(eng, '0', kinds, [P1, TS])]]
+    if name == 'A10':
+        # the next build stops producing an output (in directories of its own) that the previous build made
+        keep = bool(eng.choose('keep', 2))
+        b1 = [('BF', T2, {'mode': 'ok'}, []), ('BF', T1, {'mode': 'ok'}, []), q_hole(eng, '0', kinds, [P1, TS])]
+        b2 = ([('BF', T1, {'mode': 'ok'}, [])] if keep else []) + [q_hole(eng, '0', kinds, [P1, TS])]
+        return [b1, b2]
     if name == 'A9':
         # a build_file function that asks about its own output directory and then reads an input; afterwards the root asks
         # about the directory (the interesting histories change the input, so the replay of the record stops half-way)
@@ -107,9 +113,10 @@ def skeleton(eng, name, P):
     if name == 'A8':
         # file <-> directory swap of an output position between builds
         first = eng.choose('first', 2)
-        b1 = [('BF', TS, {'mode': 'ok'}, [])]
-        b2 = [('BF', T2, bf_opts(eng, '0', ['ok', 'raise_after'], catch=False), [])]
-        tail = [q_hole(eng, '0', kinds, [P1, TS, T2])]
+        sd, sf = P.get('swap_dir', TS), P.get('swap_file', T2)      # e.g. the directory that holds the cache file
+        b1 = [('BF', sd, {'mode': 'ok'}, [])]
+        b2 = [('BF', sf, bf_opts(eng, '0', ['ok', 'raise_after'], catch=False), [])]
+        tail = [q_hole(eng, '0', kinds, [P1, sd, sf])]
         return [b1 + tail, b2 + tail] if first == 0 else [b2 + tail, b1 + tail]
     if name == 'B1':
         # the KeyError shape: a caught failing build_file whose function caught a failing build_file
@@ -122,6 +129,20 @@ def skeleton(eng, name, P):
         return [[('SB', 's', {}, [('BF', t, bf_opts(eng, '0', FAIL_MODES[:3], catch=True),
                                    [q_hole(eng, '0', P.get('inner_kinds', ['list_dir', 'is_dir', 'walk']), [par, P1])]),
                                   q_hole(eng, '1', ['list_dir', 'is_dir', 'walk', 'exists'], [par, P1])])]]
+    if name == 'B9':
+        # one cacheable function with two (possibly failing, caught) build_file calls whose outputs are siblings or cousins
+        # below a common directory, followed by a look at that directory or its parent
+        t1 = pick(eng, 't1', ['o/d/g', 'o/d/p/x'])
+        t2 = pick(eng, 't2', ['o/d/h', 'o/d/q/y'])
+        m = ['ok', 'raise_before', 'raise_after']
+        return [[('SB', 's', {}, [('BF', t1, bf_opts(eng, '0', m, catch=True), []), ('BF', t2, bf_opts(eng, '1', m, catch=True), []),
+                                  q_hole(eng, '0', kinds, [P1, TS])])]]
+    if name == 'B10':
+        # as B9, but the second build_file call is made by the function of the first (cousin directories below o/d)
+        m = ['ok', 'raise_before', 'raise_after']
+        return [[('SB', 's', {}, [('BF', 'o/d/q/y', bf_opts(eng, '0', m, catch=True),
+                                   [('BF', 'o/d/p/x', bf_opts(eng, '1', m, catch=True), [])]),
+                                  q_hole(eng, '0', kinds, [P1, TS])])]]
     if name == 'B3':
         ms = [pick(eng, 'm%d' % i, ['ok', 'raise_before', 'raise_after']) for i in range(3)]
         ts = ['o/d/g', 'o/d/h', 'o/d/i']
